@@ -8,7 +8,7 @@ OWN = ("path", "point", "extra", "reject", "rowcount")
 
 PATH = ["x_le", "x_vec_ge", "xu_between", "u_between", "t_eq", "xt_le", "pc_le", "vc_ge", "pg_le", "dt_le",
         "next", "prev", "off2", "offm2", "next_u", "next_pc", "next_pcq", "z_le", "x_vec_mixed", "x_vec_mixed_lb",
-        "diff2", "diff2_rev", "prev_offm2", "xq_le"]
+        "diff2", "diff2_rev", "prev_offm2", "xq_le", "pcq_le"]
 POINT = ["bc0", "bcf", "bc_mixed", "periodic", "bcT", "vg_le", "intq"]
 OFFS = ("next", "prev", "off2", "offm2", "next_u", "next_pc", "next_pcq", "diff2", "diff2_rev", "prev_offm2")
 
@@ -22,6 +22,7 @@ DIMS = dict(
     N=[2, 1, 3],
     M=[1, 2, 3],
     degree=[2, 1, 3],
+    scheme=["radau", "legendre"],
     grid=["uniform", "geom", "free", "uniform_lt0"],
     horizon=["fixed", "Tfree", "t0param"],
     pc=[None, "control", "control+"],
@@ -50,7 +51,7 @@ def finish(a):
     if con == "vc_ge" and not kw["vc"]: kw["vc"] = "control"
     if con == "pg_le": kw["pg"] = "scalar"
     if con == "next_pc" and not kw["pc"]: kw["pc"] = "control"
-    if con == "next_pcq": kw["pc"] = "both"
+    if con in ("next_pcq", "pcq_le"): kw["pc"] = "both"
     if con == "z_le":
         kw["alg"] = True; kw["method"] = "DC"
     if con == "vg_le": kw["vg"] = True
@@ -88,6 +89,15 @@ def cases(tier):
                             a.update(con=con, cgrid=cg, include_first=inf, include_last=inl, method=meth, M=M, N=3)
                             if forbid(a): continue
                             add(a, ["con", "cgrid", "include_first", "include_last", "method", "M", "N"])
+    # algebraic values at the final node / off the collocation points: both schemes x degree x M x grid option
+    for sc in ("radau", "legendre"):
+        for dg in (1, 2, 3):
+            for M in (1, 2):
+                for cg in (None, "integrator", "integrator_roots"):
+                    for inl in (True, False):
+                        a = {n: DIMS[n][0] for n in DIMS}
+                        a.update(con="z_le", cgrid=cg, include_last=inl, method="DC", scheme=sc, degree=dg, M=M, N=2)
+                        add(a, ["con", "cgrid", "include_last", "scheme", "degree", "M"])
     # SplineMethod (integrator-chain programs): path constraint x refine x include_first/include_last
     from ..common import have_networkx
     if have_networkx():
@@ -97,6 +107,8 @@ def cases(tier):
                     for r in (1, 2, 3):
                         for inc in ((True, True), (False, True), (True, False), (False, False)):
                             out.append(dict(kind="spline", chains=chains, N=N, grid=g, refine=r, inc=list(inc), dev=["Spline"]))
+                            if r > 1 and inc == (True, True):
+                                out.append(dict(kind="spline", chains=chains, N=N, grid=g, refine=r, inc=list(inc), refined_first=True, dev=["Spline", "refined_first"]))
                             if r == 1:
                                 out.append(dict(kind="spline", chains=chains, N=N, grid=g, refine=r, inc=list(inc), with_offset=True, dev=["Spline", "offset"]))
                                 if inc == (True, True):
@@ -120,11 +132,11 @@ def run_spline(case):
     from . import c17
     from .. import core
     inc = tuple(case["inc"])
-    tags = (["second=%s" % ("prev_t" if case.get("with_offset") == "prev_t" else "next")] if case.get("with_offset") else []) + ["method=Spline", "chains=%s" % case["chains"], "N=%d" % case["N"], "grid=%s" % case["grid"], "refine=%d" % case["refine"], "include_first=%s" % inc[0], "include_last=%s" % inc[1]]
+    tags = (["refined_first"] if case.get("refined_first") else []) + (["second=%s" % ("prev_t" if case.get("with_offset") == "prev_t" else "next")] if case.get("with_offset") else []) + ["method=Spline", "chains=%s" % case["chains"], "N=%d" % case["N"], "grid=%s" % case["grid"], "refine=%d" % case["refine"], "include_first=%s" % inc[0], "include_last=%s" % inc[1]]
     vios = []
     n_refs = 1
     try:
-        n_missing, n_refs, n_extra = c17.spline_path_rows(case["chains"], case["N"], case["grid"], False, case["refine"], inc, with_offset=case.get("with_offset", False))
+        n_missing, n_refs, n_extra = c17.spline_path_rows(case["chains"], case["N"], case["grid"], False, case["refine"], inc, with_offset=case.get("with_offset", False), refined_first=bool(case.get("refined_first")))
         if n_missing:
             vios.append(dict(sig="missing:spline:path", tags=tags, detail="%d of %d declared instances of x<=3 are not in the NLP" % (n_missing, n_refs)))
         if n_extra:
@@ -134,7 +146,7 @@ def run_spline(case):
         if fr is None and not isinstance(e, (RuntimeError, AssertionError, AttributeError)):
             raise
         vios.append(dict(sig="exception:spline:%s" % (fr or type(e).__name__), tags=tags, detail="%s: %s" % (type(e).__name__, str(e)[:200])))
-    return dict(violations=vios, evaluations=n_refs, traces=1, transitions=1, outcome=explore.sha([case["chains"], case["N"], case["grid"], case["refine"], inc, str(case.get("with_offset")), [v["sig"] for v in vios]]), nontrivial=True,
+    return dict(violations=vios, evaluations=n_refs, traces=1, transitions=1, outcome=explore.sha([case["chains"], case["N"], case["grid"], case["refine"], inc, str(case.get("with_offset")), bool(case.get("refined_first")), [v["sig"] for v in vios]]), nontrivial=True,
                 sample=dict(kind="spline", chains=case["chains"], N=case["N"], grid=case["grid"], refine=case["refine"], inc=list(inc)))
 
 
